@@ -16,6 +16,9 @@ tier = tier.replace("_gen", "")
 cases = fixrun.universe(tier, 0, 0, 0, full=True)
 if gen_only:
     cases = [c for c in cases if "gen" in c]
+if os.environ.get("SWEEP_KINDS"):
+    kk = set(os.environ["SWEEP_KINDS"].split(","))
+    cases = [c for c in cases if c.get("variant") and any(k in kk for k, _ in c["variant"])]
 cases = cases[i::n]
 print(len(cases), "cases", flush=True)
 t0 = time.time()
